@@ -23,10 +23,20 @@ package timing
 //@   ensures decCount == old(decCount) + 1 && decLen == len(result0)
 //@   assigns decCount, decLen
 // EncodeSlice: arbitrary bytes and an arbitrary error. Modifies nothing.
+// encCount / encLen / encTyp / encVal / encOut (ghost log, C06): how many lists have been encoded so far and, per call number,
+// the length of the list handed over, its elements (type id, value) in order, and the reference of the bytes returned.
+//@ ghost var encCount int
+//@ ghost var encLen map
+//@ ghost var encTyp map2
+//@ ghost var encVal map2
+//@ ghost var encOut map
 //@ ext internal/codec.(*Registry[T]).EncodeSlice(r, vs)
 //@   trusted
 //@   requires r != nil
-//@   assigns nothing
+//@   ensures encCount == old(encCount) + 1 && encLen == upd(old(encLen), old(encCount), len(vs)) && encOut == upd(old(encOut), old(encCount), ref(result0))
+//@   ensures encTyp == upd(old(encTyp), old(encCount), mapof(i, typeid(vs[i]))) && encVal == upd(old(encVal), old(encCount), mapof(i, ifaceval(vs[i])))
+//@   ensures result1 == nil ==> fresh(result0)
+//@   assigns encCount, encLen, encTyp, encVal, encOut
 
 // eventCodec is initialised at its declaration (eventcodec.go) and assigned nowhere else.
 //@ pred evCodecReady() = eventCodec != nil
@@ -38,8 +48,12 @@ package timing
 
 // ---- decodeEvents: the handler existence check ----
 //@ fn (*SerialEngine).decodeEvents
-//@   property C07
+//@   property C07 C06
 //@   requires e != nil && evCodecReady()
+//@   witness inRef int = ref(data)
+//@   witness outRef int = ref(result0)
+//@   label C06.decode.handles
+//@   ensures inRef == ref(data) && outRef == ref(result0)
 //@   label C07.decode.unknown.handler
 //@   ensures result1 == nil ==> handlersKnown(e, result0)
 //@   label C07.decode.nonnil
@@ -57,7 +71,7 @@ package timing
 
 // ---- restore: push the events in order; src[j] = index (in events) of the event now at heap position j ----
 //@ fn (*unsafeEventQueue).restore
-//@   property C07
+//@   property C07 C06
 //@   requires q != nil && len(q.events) == 0 && queueWF(q) && int(q.nextSeq) + len(events) < MaxUint64 && len(events) < 1<<59
 //@   witness src map = src
 //@   label C07.restore.len
@@ -68,6 +82,8 @@ package timing
 //@   ensures ref(q.events) == old(ref(q.events)) || fresh(q.events)
 //@   label C07.restore.src
 //@   ensures forall j in 0..len(q.events) :: 0 <= src[j] && src[j] < len(events) && q.events[j].event == events[src[j]]
+//@   label C06.restore.seq
+//@   ensures forall j in 0..len(q.events) :: int(q.events[j].seq) == int(old(q.nextSeq)) + src[j]
 //@   assigns q.events, q.nextSeq, elems(q.events)
 //@   loop 0: ghost src = idperm
 //@   loop 0: backedge src = mapof(j, Push_pi[j] < athead(len(q.events)) ? src[Push_pi[j]] : rangeindex)
@@ -75,6 +91,7 @@ package timing
 //@   loop 0: invariant queueWF(q) && int(q.nextSeq) == int(old(q.nextSeq)) + rangeindex + 1
 //@   loop 0: invariant ref(q.events) == old(ref(q.events)) || fresh(q.events)
 //@   loop 0: invariant forall j in 0..len(q.events) :: 0 <= src[j] && src[j] <= rangeindex && q.events[j].event == events[src[j]]
+//@   loop 0: invariant forall j in 0..len(q.events) :: int(q.events[j].seq) == int(old(q.nextSeq)) + src[j]
 
 // ---- LoadCheckpoint ----
 // seqRoom: the sequence counters are not within 2^59 of wrapping around (C01 assumes the same of Push).
@@ -82,8 +99,32 @@ package timing
 
 //@ pred qSame(q) = q.nextSeq == old(q.nextSeq) && ref(q.events) == old(ref(q.events)) && off(q.events) == old(off(q.events)) && len(q.events) == old(len(q.events)) && cap(q.events) == old(cap(q.events)) && (forall j in 0..len(q.events) :: q.events[j] == old(q.events[j]))
 //@ fn (*SerialEngine).LoadCheckpoint
-//@   property C07
+//@   property C07 C06
 //@   requires e != nil && engineWF(e) && seqRoom(e) && evCodecReady()
+//@   witness s1 map = restore_prev_src
+//@   witness s2 map = restore_src
+//@   witness nPrim int = len(primary)
+//@   witness nSec int = len(secondary)
+//@   witness primRef int = ref(primary)
+//@   witness secRef int = ref(secondary)
+//@   witness primT map = mapof(i, typeid(primary[i]))
+//@   witness primV map = mapof(i, ifaceval(primary[i]))
+//@   witness secT map = mapof(i, typeid(secondary[i]))
+//@   witness secV map = mapof(i, ifaceval(secondary[i]))
+//@   witness dPrim int = ref(dto.Primary)
+//@   witness dSec int = ref(dto.Secondary)
+//@   witness d1in int = decodeEvents_prev_inRef
+//@   witness d1out int = decodeEvents_prev_outRef
+//@   witness d2in int = decodeEvents_inRef
+//@   witness d2out int = decodeEvents_outRef
+//@   label C06.engine.load.primary.field
+//@   ensures result == nil ==> d1in == dPrim && d1out == primRef
+//@   label C06.engine.load.secondary.field
+//@   ensures result == nil ==> d2in == dSec && d2out == secRef
+//@   label C06.engine.load.primary.content
+//@   ensures result == nil ==> c06Restored(e.queue, nPrim, s1, primT, primV)
+//@   label C06.engine.load.secondary.content
+//@   ensures result == nil ==> c06Restored(e.secondaryQueue, nSec, s2, secT, secV)
 //@   witness dtoTime int = int(dto.Time)   // dto is declared after the first return: a witness tolerates the unbound path
 //@   label C07.engine.nonempty.mismatch
 //@   ensures old(len(e.queue.events)) != 0 || old(len(e.secondaryQueue.events)) != 0 ==> result != nil
@@ -101,7 +142,7 @@ package timing
 
 // ---- the sequential ID generator ----
 //@ fn (*sequentialIDGenerator).LoadCheckpoint
-//@   property C07
+//@   property C07 C06
 //@   requires g != nil
 //@   label C07.idgen.kind.mismatch
 //@   ensures dto.Kind != "sequential" ==> result != nil
@@ -112,7 +153,7 @@ package timing
 //@   assigns g.nextID
 
 //@ fn (*sequentialIDGenerator).SaveCheckpoint
-//@   property C07
+//@   property C07 C06
 //@   requires g != nil
 //@   label C07.idgen.save.written
 //@   ensures jsonEncCount == old(jsonEncCount) + 1 && as(mkiface(jsonEncTyp, jsonEncVal), "idGeneratorCheckpoint").Kind == "sequential" && as(mkiface(jsonEncTyp, jsonEncVal), "idGeneratorCheckpoint").NextID == g.nextID
@@ -132,7 +173,7 @@ package timing
 
 // ---- the save side: snapshot lists the queued events in pop order ((time, seq) ascending) without touching the queue ----
 //@ fn (*unsafeEventQueue).snapshot
-//@   property C07
+//@   property C07 C06
 //@   requires q != nil
 //@   witness pi map = Slice_pi
 //@   label C07.snapshot.len
@@ -150,10 +191,22 @@ package timing
 //@   loop 0: invariant forall k in 0..rangeindex + 1 :: out[k] == sorted[k].event
 
 //@ fn (*SerialEngine).SaveCheckpoint
-//@   property C07
+//@   property C07 C06
 //@   requires e != nil && e.queue != nil && e.secondaryQueue != nil && evCodecReady()
+//@   witness p1 map = snapshot_prev_pi
+//@   witness p2 map = snapshot_pi
 //@   label C07.engine.save.time
-//@   ensures jsonEncCount == old(jsonEncCount) + 1 ==> as(mkiface(jsonEncTyp, jsonEncVal), "serialEngineCheckpoint").Time == e.time
+//@   ensures jsonEncCount == old(jsonEncCount) + 1 ==> c06Eng().Time == e.time
 //@   label C07.engine.save.error
 //@   ensures jsonEncCount == old(jsonEncCount) ==> result != nil
-//@   assigns jsonEncTyp, jsonEncVal, jsonEncCount
+//@   label C06.engine.save.once
+//@   ensures result == nil ==> jsonEncCount == old(jsonEncCount) + 1 && encCount == old(encCount) + 2
+//@   label C06.engine.save.primary.field
+//@   ensures result == nil ==> ref(c06Eng().Primary) == encOut[old(encCount)]
+//@   label C06.engine.save.secondary.field
+//@   ensures result == nil ==> ref(c06Eng().Secondary) == encOut[old(encCount) + 1] && ref(c06Eng().Secondary) != ref(c06Eng().Primary)
+//@   label C06.engine.save.primary.poporder
+//@   ensures result == nil ==> c06Encoded(old(encCount), e.queue, p1)
+//@   label C06.engine.save.secondary.poporder
+//@   ensures result == nil ==> c06Encoded(old(encCount) + 1, e.secondaryQueue, p2)
+//@   assigns jsonEncTyp, jsonEncVal, jsonEncCount, encCount, encLen, encTyp, encVal, encOut
